@@ -232,21 +232,23 @@ public:
 
     X get_first_x() const { return first; }
 
-    std::pair<long double, long double> get_intersection() const {
+    /** Returns the intersection of the two extreme lines, with the abscissa expressed relative to @p origin. */
+    std::pair<long double, long double> get_intersection(const X &origin = X(0)) const {
         auto &p0 = rectangle[0];
         auto &p1 = rectangle[1];
         auto &p2 = rectangle[2];
         auto &p3 = rectangle[3];
         auto slope1 = p2 - p0;
         auto slope2 = p3 - p1;
+        auto p0_x = SX(p0.x) - origin; // exact: large keys would otherwise absorb the fractional part below
 
         if (one_point() || slope1 == slope2)
-            return {p0.x, p0.y};
+            return {p0_x, p0.y};
 
         auto p0p1 = p1 - p0;
         auto a = slope1.dx * slope2.dy - slope1.dy * slope2.dx;
         auto b = (p0p1.dx * slope2.dy - p0p1.dy * slope2.dx) / static_cast<long double>(a);
-        auto i_x = p0.x + b * slope1.dx;
+        auto i_x = p0_x + b * slope1.dx;
         auto i_y = p0.y + b * slope1.dy;
         return {i_x, i_y};
     }
